@@ -1038,7 +1038,36 @@ void MEDDLY::saturation_set_mtrel<EOP, ATYPE>::fillSplit(int L, node_handle bp)
             splout << "    no dependency on this level\n";
             splout << "    exactly: 0\n";
 #endif
-            top_exactly[k].set(0);
+            if (arg2F->isIdentityReduced() || (0==mxdn)
+                    || (arg2F->getLevelSize(k) < 2))
+            {
+                top_exactly[k].set(0);
+                continue;
+            }
+            //
+            // A skipped level is "no dependency" only in identity-reduced
+            // forests.  Otherwise variable k may change to any value:
+            // the relation is (all pairs at level k) x mxd, which is
+            // (identity x mxd), handled below level k, plus
+            // (all pairs i != j at level k) x mxd, with top exactly k.
+            //
+            const unsigned ksize = unsigned(arg2F->getLevelSize(k));
+            unpacked_node* Uun
+                = unpacked_node::newWritable(arg2F, k, ksize, FULL_ONLY);
+            for (unsigned i=0; i<ksize; i++) {
+                unpacked_node* Upr
+                    = unpacked_node::newWritable(arg2F, -k, ksize, FULL_ONLY);
+                for (unsigned j=0; j<ksize; j++) {
+                    Upr->setFull(j, (i==j) ? 0 : arg2F->linkNode(mxdn));
+                }
+                edge_value ev;
+                node_handle h;
+                arg2F->createReducedNode(Upr, ev, h, int(i));
+                Uun->setFull(i, h);
+            }
+            edge_value ev;
+            arg2F->createReducedNode(Uun, ev, resp);
+            top_exactly[k].set(resp);
             continue;
         }
 
@@ -1048,7 +1077,8 @@ void MEDDLY::saturation_set_mtrel<EOP, ATYPE>::fillSplit(int L, node_handle bp)
         diag.set_and_link(Brn->getDiagonal(0));
         const unsigned maxi = arg2F->getLevelSize(k);
         for (unsigned i=1; i<maxi; i++) {
-            mxdIntersection->compute(k, ~0,
+            // the diagonal entries are relations below level k
+            mxdIntersection->compute(k-1, ~0,
                     nothing, diag.getNode(),
                     nothing, Brn->getDiagonal(i),
                     diag.setEdgeValue(), resp
@@ -1071,9 +1101,17 @@ void MEDDLY::saturation_set_mtrel<EOP, ATYPE>::fillSplit(int L, node_handle bp)
 
         // Set relation with top=k to relation minus common diagonal
         // and continue the iteration with the common diagonal
+        //
+        // As a relation at level k, the common diagonal is
+        // (identity at level k) x diag.  A skipped level means exactly
+        // that only in identity-reduced forests; otherwise build it.
+        //
+        dd_edge diagk(arg2F);
+        diagk.set( arg2F->makeIdentitiesTo(
+                    arg2F->linkNode(diag.getNode()), k-1, k, -1) );
         mxdDifference->compute(k, ~0,
             nothing, mxd.getNode(),
-            nothing, diag.getNode(),
+            nothing, diagk.getNode(),
             top_exactly[k].setEdgeValue(), resp
         );
         top_exactly[k].set(resp);
